@@ -713,6 +713,82 @@ def padded_part(ck, L, G, per):
               "no padded file rejected by libxml2 for: " + ", ".join(missing), kind="harness")
 
 
+NUM_FACETS = ("minInclusive", "maxInclusive", "minExclusive", "maxExclusive")
+NUM_FORMS = ("int", "numpy.int64", "numpy.float32", "numpy.float16", "numpy.float64", "Decimal", "Fraction")
+
+
+def number_forms_part(ck, L, G, order, depths):
+    """every numeric facet violation (type, member, facet) again with the violating number in another python FORM - int,
+    numpy.int64, numpy.float32/16/64, Decimal, Fraction - assigned after construction, at depth 0 and below a parent;
+    the case counts when libxml2 rejects the value the writer writes for it; validate(recursive=True) must raise"""
+    import math
+    tr = [t for t in triples(L, G) if t[2] in NUM_FACETS and t[4][0] == "set" and "f" in t[4][1]]
+    ck.extra["numeric_facet_triples"] = len(tr)
+    cases = []
+    for (c, member, facet, inh, op) in tr:
+        x = float(op[1]["f"])
+        xi = math.floor(x) if facet.startswith("min") else math.ceil(x)
+        for d in depths:
+            steps = G.parent_steps(c, d) if d else []
+            if steps is None:
+                continue
+            root, path = G.embed(G.tree(c, 0), steps)
+            for form in NUM_FORMS:
+                v = repr(float(xi)) if form in ("int", "numpy.int64") else repr(x)
+                cases.append({"tree": root, "tag": "probe_" + root["cls"], "doc": root["cls"] == L.S["root"][1], "type": c, "member": member,
+                              "facet": facet, "inherited": inh, "depth": d, "form": form,
+                              "post": [[path, member, {"num": {"form": form, "v": v}}]]})
+    res = []
+    for i in range(0, len(cases), 1500):
+        res += ck.impl("c03_impl.py", {"order": order, "cases": cases[i:i + 1500], "want": ["rec", "nonrec", "text"]}, timeout=2400)["results"]
+    for cs, r in zip(cases, res):
+        if "obj_err" in r or "text_err" in r or "lx" not in r:
+            ck.tally("number-form:skipped:%s:%s" % (cs["form"], "constructor/assignment raised" if "obj_err" in r else "writer raised"))
+            continue
+        if not r["lx"]["wellformed"] or r["lx"]["valid"]:
+            ck.tally("number-form:skipped:%s:written value accepted by libxml2" % cs["form"])
+            continue
+        ck.tally("number-form:" + cs["form"])
+        ck.tally("number-form:depth:%d" % cs["depth"])
+        ck.count(1, nontrivial_key=("number-form", cs["type"], cs["member"], cs["facet"], cs["depth"], cs["form"]))
+        if r["rec"]["raised"] is None:
+            ck.witness("C03:numeric-facet-violation-accepted-for-number-form:" + cs["form"],
+                       "validate(recursive=True) accepts a tree whose %s.%s (depth %d) was assigned %s(%s), violating '%s'; the writer "
+                       "writes it and libxml2 rejects the XML: %s" % (cs["type"], cs["member"], cs["depth"], cs["form"],
+                                                                      cs["post"][0][2]["num"]["v"], cs["facet"], r["lx"]["err"]),
+                       input={k: cs[k] for k in ("tree", "tag", "doc", "type", "member", "facet", "depth", "form", "post")},
+                       expected="ValueError", observed="no exception")
+        elif r["rec"]["raised"] != "ValueError":
+            ck.witness("C03:validate-raises-" + r["rec"]["raised"], "validate(recursive=True) raises %s instead of ValueError for %s.%s = %s(...): %s" % (
+                r["rec"]["raised"], cs["type"], cs["member"], cs["form"], r["rec"].get("text")),
+                input={k: cs[k] for k in ("tree", "tag", "doc", "type", "member", "facet", "depth", "form", "post")})
+
+
+CONFIGS = (("python -O", {"pyflags": ["-O"]}),
+           ("PYTHONHASHSEED=3, cwd=/", {"extra_env": {"PYTHONHASHSEED": "3"}, "cwd": "/"}))
+
+
+def interpreter_configuration(ck, prop, script, order, sub, ref, want, keys):
+    """the interpreter's configuration is not input: the same deterministic cases through the same impl script under
+    `python -O` (asserts stripped) and with another hash seed from another working directory give the same results"""
+    for label, kw in CONFIGS:
+        try:
+            out = ck.impl(script, {"order": order, "cases": sub, "want": want}, timeout=600, **kw)["results"]
+        except Exception as e:  # noqa
+            ck.oblige("interpreter-configuration:%s:runs" % label, False, repr(e)[:400], kind="harness")
+            continue
+        for cs, a, b in zip(sub, ref, out):
+            ck.tally("interpreter-configuration:" + label)
+            ck.count(1)
+            diff = [k for k in keys if a.get(k) != b.get(k)]
+            if diff:
+                ck.witness("%s:interpreter-configuration:%s" % (prop, label.split(",")[0].replace(" ", "")),
+                           "under %s the result for the same tree differs from the default interpreter in %s: %s instead of %s" % (
+                               label, ", ".join(diff), json.dumps(b.get(diff[0]))[:300], json.dumps(a.get(diff[0]))[:300]),
+                           input={k: cs[k] for k in ("tree", "tag", "doc", "type", "post") if k in cs},
+                           expected={k: a.get(k) for k in diff[:1]}, observed={k: b.get(k) for k in diff[:1]})
+
+
 SWITCHES = (["disable"], ["disable", "enable"], ["disable", "enable", "disable"])
 
 
@@ -897,6 +973,10 @@ def run(ck):
     # the recursion reaches the children held by every (parent class, child member) pair (complete over the pairs)
     ck.oblige("recursion:reaches-the-children-of-every-(parent, member)-pair", not missed,
               "violating child not seen under: " + ", ".join(sorted(set(missed))[:12]), kind="instance")
+    sub = [(c, r) for c, r in zip(pc, pres) if c.get("doc")][:6] + list(zip(pc, pres))[:10]
+    interpreter_configuration(ck, "C03", "c03_impl.py", order, [c for c, _ in sub] + stored, [r for _, r in sub] + sres,
+                              ["rec", "nonrec", "text", "file"], ("rec", "nonrec", "text", "lx", "file_valid", "file_validate", "obj_err", "text_err"))
+    number_forms_part(ck, L, G, order, (0, 1) if ck.tier != "thorough" else (0, 1, 2))
     switch_part(ck, order, pc, pres, ck.n(90, 600))
     padded_part(ck, L, G, ck.n(0, 3))
     file_history_part(ck, L, G, order, ck.n(1, 8))
